@@ -139,6 +139,13 @@ def check(prog, res, tier):
             return []
         exits = [e for e in p.events if e.kind == 'loop-exit' and e.under(READ)]
         if mode == 'inv' and exits and exits[-1].data['how'] == 'cond':
+            # the condition itself may have tried to refill and met the end of the file:  while short and self._refill(): ...
+            heads = [e for e in p.events if e.kind == 'loop-head' and e.node is exits[-1].node]
+            f = p.interp.user['file']
+            if heads:
+                late = [e for e in p.events if e.kind == 'read' and e.data['file'] is f and heads[-1].seq < e.seq < exits[-1].seq]
+                if late and p.store.decide_eq0(late[-1].data['data'].length()) is True:
+                    return []
             g = buffer_at_exit(p)
             n = p.interp.user['n']
             return need_ge0(p.store, g.length() - n.lin, 'the refill loop can stop with fewer buffered bytes than requested '
